@@ -140,6 +140,33 @@ M.lemma("added_iff_absent_from_old", vars=dict(rest=Tree, old=Tree, new=Tree, dp
 M.lemma("nothing_removed_when_all_rows_stay", vars=dict(rest=Tree, old=Tree, new=Tree, dp=DiffPre, pops=SeqOp, i=INT),
         hyps=["subkeys(rest, new)"], goal="rem_items(rest, old, new, dp, pops, i) == []", induct="rest", properties=["C03", "C01"])
 
+# ---- "comparing a configuration with itself reports no change" (per level; the children are diffed the same way by call_diff_logic)
+from pyvc.native import dapp, dcons, dwf       # noqa: E402
+
+M.lemma("wf_app_fresh_key", vars=dict(pre=Tree, k=STR, v=Tree, tl=Tree), hyps=["dwf(dapp(pre, dcons(k, v, tl)))"],
+        goal="not dhas(pre, k)", induct="pre", properties=["C03"])
+M.lemma("pos_after_prefix", vars=dict(pre=Tree, k=STR, v=Tree, tl=Tree, i=INT), hyps=["not dhas(pre, k)"],
+        goal="pos(dapp(pre, dcons(k, v, tl)), k, i) == i + len(pre)", induct="pre", properties=["C03"])
+M.lemma("snoc_then_rest", vars=dict(pre=Tree, k=STR, v=Tree, tl=Tree, e=Tree), hyps=["not e"],
+        goal="dapp(dapp(pre, dcons(k, v, e)), tl) == dapp(pre, dcons(k, v, tl)) and len(dapp(pre, dcons(k, v, e))) == len(pre) + 1",
+        induct="pre", properties=["C03"])
+M.lemma("self_diff_keeps_the_parent_op", vars=dict(rest=Tree, pre=Tree, dp=DiffPre, pops=SeqOp, mta=BOOL, e=Tree),
+        hyps=["dwf(dapp(pre, rest))", "len(pops) > 0", "not e"],
+        goal="all_op(new_items(rest, dapp(pre, rest), dapp(pre, rest), dp, pops, len(pre), False, mta), pops[-1])", induct="rest",
+        ih=[dict(pre="dapp(pre, dcons(dhead(rest)[0], dhead(rest)[1], e))")],
+        instances=[("wf_app_fresh_key", dict(pre="pre", k="dhead(rest)[0]", v="dhead(rest)[1]", tl="dtail(rest)")),
+                   ("pos_after_prefix", dict(pre="pre", k="dhead(rest)[0]", v="dhead(rest)[1]", tl="dtail(rest)", i="0")),
+                   ("snoc_then_rest", dict(pre="pre", k="dhead(rest)[0]", v="dhead(rest)[1]", tl="dtail(rest)", e="e"))],
+        properties=["C03"])
+M.lemma("subkeys_of_a_suffix", vars=dict(rest=Tree, pre=Tree, e=Tree), hyps=["not e"], goal="subkeys(rest, dapp(pre, rest))", induct="rest",
+        ih=[dict(pre="dapp(pre, dcons(dhead(rest)[0], dhead(rest)[1], e))")], properties=["C03"])
+M.lemma("self_diff_reports_no_change", vars=dict(t=Tree, dp=DiffPre, pops=SeqOp, mta=BOOL, e=Tree), hyps=["dwf(t)", "len(pops) > 0", "not e"],
+        goal="rem_items(t, t, t, dp, pops, 0) == [] and all_op(new_items(t, t, t, dp, pops, 0, False, mta), pops[-1])",
+        instances=[("self_diff_keeps_the_parent_op", dict(rest="t", pre="e", dp="dp", pops="pops", mta="mta", e="e")),
+                   ("subkeys_of_a_suffix", dict(rest="t", pre="e", e="e")),
+                   ("nothing_removed_when_all_rows_stay", dict(rest="t", old="t", new="t", dp="dp", pops="pops", i="0"))],
+        properties=["C03"])
+
 M.lemma("index_map_is_pos", vars=dict(t=Tree, row=STR, i=INT), hyps=["dhas(t, row)"],
         goal="imap(t, i)[row] == pos(t, row, i)", induct="t", properties=["C03"], pattern="imap(t, i)[row]")
 M.lemma("index_map_has", vars=dict(t=Tree, row=STR, i=INT), hyps=[],
